@@ -14,3 +14,8 @@ Proof.
   - apply in_seq in H1. split; [lia|auto].
   - split; [apply in_seq; lia|auto].
 Qed.
+
+Lemma nth_map' {A B} (f : A -> B) l : forall k d d', k < length l -> nth k (map f l) d = f (nth k l d').
+Proof.
+  induction l as [|a l IH]; intros [|k] d d' H; cbn in *; try lia; auto. apply IH. lia.
+Qed.
